@@ -124,3 +124,74 @@ def rest_of(s):
 def holds(v, cond):
     """a version string satisfies one constraint"""
     return apply_op(op_of(cond), vcmp(toks(v), toks(rest_of(cond)), 0))
+
+
+# --- constraint lists -------------------------------------------------------------------------
+SeqStr = Seq(Str)
+
+
+@REG.spec([Str, SeqStr, Int, Bool], SeqStr)
+def sel(v, conds, n, want):
+    """the constraints among conds[:n] that hold (want=True) resp. do not hold (want=False), in order"""
+    if n <= 0:
+        return EMPTY
+    if holds(v, conds[n - 1]) == want:
+        return sel(v, conds, n - 1, want) + unit(conds[n - 1])
+    return sel(v, conds, n - 1, want)
+
+
+@REG.spec([Str, SeqStr, Int], Bool)
+def all_hold(v, conds, n):
+    if n <= 0:
+        return True
+    return holds(v, conds[n - 1]) and all_hold(v, conds, n - 1)
+
+
+# --- range algebra (generic in the element type: any total preorder) ---------------------------
+from pyvc.api import Abstract, EMPTY, unit
+Elem = Abstract('Elem')
+REG.consts.update(Elem=Elem, SeqStr=SeqStr)
+
+
+@REG.spec([None, Elem], Bool)
+def mem(r, x):
+    """x lies in range r"""
+    return (not r.is_empty
+            and (r.min is None or (x >= r.min if r.min_eq else x > r.min))
+            and (r.max is None or (x <= r.max if r.max_eq else x < r.max)))
+
+
+@REG.spec([Str], Elem, uninterpreted='ver_of')
+def ver(s):
+    """the Version denoted by a string, as an element of the abstract total preorder"""
+    from mesonbuild.utils.universal import Version      # native evaluation only
+    return Version(s)
+
+
+@REG.spec([Elem, Elem], Int)
+def ecmp(a, b):
+    if a < b:
+        return -1
+    if a > b:
+        return 1
+    return 0
+
+
+@REG.spec([Elem, Str], Bool)
+def holds_e(e, c):
+    return apply_op(op_of(c), ecmp(e, ver(rest_of(c))))
+
+
+@REG.spec([SeqStr, Int, Elem], Bool)
+def sat_all(checks, n, e):
+    if n <= 0:
+        return True
+    return holds_e(e, checks[n - 1]) and sat_all(checks, n - 1, e)
+
+
+@REG.spec([SeqStr, Int, Elem], Bool)
+def sat_nonne(checks, n, e):
+    """e satisfies every check of checks[:n] that is not a != check"""
+    if n <= 0:
+        return True
+    return (op_of(checks[n - 1]) is operator.ne or holds_e(e, checks[n - 1])) and sat_nonne(checks, n - 1, e)
